@@ -16,7 +16,8 @@ for d in seeded/*/; do
   [ -f "$d/patch.diff" ] || continue
   case "$id" in S-*|S3-*) prop=$(echo "$id" | cut -d- -f2);; *) prop=${id%%-*};; esac
   # C05-r9-1 needs two executions in flight: that is C16's dimension, and C16 is what catches it
-  case "$id" in C05-r9-1) prop=C16;; esac
+  # C13-r11-1 yields a stale value of `op=` only under concurrent updates: again C16's dimension
+  case "$id" in C05-r9-1|C13-r11-1) prop=C16;; esac
   if ! git -C $REPO apply "$PWD/$d/patch.diff" 2>/dev/null; then echo "$id: PATCH DOES NOT APPLY"; other=$((other+1)); continue; fi
   VERIF_OUT=/tmp/verif-recheck-out$$ ./check "$prop" quick >/tmp/recheck$$.log 2>&1; rc=$?
   git -C $REPO checkout -- . ; git -C $REPO clean -fdq -- src parser macros tests docs
